@@ -26,6 +26,7 @@ func init() {
 			{"C19.slice-guards", "fixed-offset slicing of input bytes only behind a sufficient length", 5, c19SliceGuards},
 			{"C19.signed-length", "an input value converted to a signed length (io.CopyN, io.LimitReader) is first bounded by MaxInt64", 2, c19SignedLength},
 			{"C19.tainted-loops", "loops bounded by an input value consume input each iteration", 1, c19TaintedLoops},
+			{"C19.exact-reads", "fixed-size fields are read completely (no direct Read in the decoding primitives; byte counts used)", 1, func(c *Ctx) { c.exactReads() }},
 			{"C19.fixed-size", "fixed-size elements check their size field", 2, c19FixedSize},
 		},
 	})
